@@ -220,6 +220,38 @@ func (c *Ctx) Sub(k int) {
 	}
 }
 
+// Borrow runs case idx of another property inside the current case (same process), with a context
+// of its own. Its oracle verdicts are returned to the caller, not recorded: the borrowing property
+// decides what they mean (C20 borrows the precisely scheduled whole-server scenarios of the other
+// checks to put them under the race detector; their behavioural verdicts belong to their own
+// check). finished=false: the borrowed case was still running after limit (its goroutine is left
+// behind; the caller should ask for the child to be replaced).
+func (c *Ctx) Borrow(propID, tier string, idx int, limit time.Duration) (evals int, viol []Violation, inc []string, finished bool) {
+	p := Get(propID)
+	if p == nil {
+		return 0, nil, []string{"unknown property " + propID}, true
+	}
+	b := &Ctx{Prop: p, Tier: tier, Seed: c.Seed, Index: idx, Scratch: c.Scratch, Replay: c.Replay}
+	b.Rng = rand.New(rand.NewSource(caseSeed(p.ID, tier, c.Seed, idx)))
+	b.rec = record{T: "end", I: idx}
+	done := make(chan struct{})
+	go func() {
+		defer close(done)
+		if p.Setup != nil {
+			p.Setup(b)
+		}
+		p.Run(b, idx)
+	}()
+	select {
+	case <-done:
+		finished = true
+	case <-time.After(limit):
+	}
+	b.mu.Lock()
+	defer b.mu.Unlock()
+	return b.rec.Evals, append([]Violation(nil), b.rec.Viol...), append([]string(nil), b.rec.Inc...), finished
+}
+
 func (c *Ctx) Logf(format string, a ...interface{}) {
 	fmt.Fprintf(os.Stderr, "[case %d] "+format+"\n", append([]interface{}{c.Index}, a...)...)
 }
